@@ -26,7 +26,7 @@ Record case := {
   c_obs : list obs
 }.
 
-Definition no_tx : txinfo := {| x_name := 0%N; x_lock := None; x_redeem := None |}.
+Definition no_tx : txinfo := {| x_name := 0%N; x_ext := 0%N; x_lock := None; x_redeem := None |}.
 Definition tx_lookup (l : list (txid * txinfo)) (x : txid) : txinfo :=
   match find (fun p => N.eqb p.1 x) l with Some p => p.2 | None => no_tx end.
 
@@ -274,6 +274,37 @@ Definition step_findings (E : env) (touched : bool) (minted refunded : list name
   (* K9: a transaction that its kind's Validate refuses has no effect *)
   (if valid E o || (negb ok && state_matches pre post) then [] else [(9%nat, 0%nat)]).
 
+(* K11: over all trackers ever created, the external transaction is unique: a tracker that appears
+   in the ongoing store (or whose recorded bytes change) must not carry an external transaction
+   that a tracker of ANOTHER name was created for.  [born] accumulates (name, external tx). *)
+Definition newborn (E : env) (pre post : state) : list (name * N) :=
+  omap (fun '(n, t') =>
+          match ongoing pre !! n with
+          | Some t => if N.eqb (t_tx t) (t_tx t') then None else Some (n, x_ext (e_tx E (t_tx t')))
+          | None => Some (n, x_ext (e_tx E (t_tx t')))
+          end) (map_to_list (ongoing post)).
+Definition k_ext_unique (born fresh : list (name * N)) : bool :=
+  forallb (fun '(n, e) => negb (existsb (fun '(n', e') => N.eqb e e' && negb (N.eqb n n')) born)) fresh.
+(* K12: at most one mint per external transaction *)
+Definition mint_ext (E : env) (pre : state) (o : op) (post : state) : option N :=
+  match pays pre o post with
+  | Some (true, n) => match ongoing pre !! n with Some t => Some (x_ext (e_tx E (t_tx t))) | None => None end
+  | _ => None
+  end.
+
+Fixpoint monitor_ext (E : env) (born : list (name * N)) (mext : list N) (pre : state)
+         (ops : list op) (os : list obs) (i : nat) : list (nat * nat * nat) :=
+  match ops, os with
+  | o :: ops', b :: os' =>
+      let post := obs_apply pre b in
+      let fresh := newborn E pre post in
+      let me := mint_ext E pre o post in
+      (if k_ext_unique born fresh then [] else [(i, 11%nat, 0%nat)]) ++
+      (match me with Some e => if existsb (N.eqb e) mext then [(i, 12%nat, 0%nat)] else [] | None => [] end) ++
+      monitor_ext E (fresh ++ born) (match me with Some e => e :: mext | None => mext end) post ops' os' (S i)
+  | _, _ => []
+  end.
+
 Fixpoint monitor (E : env) (touched : bool) (minted refunded : list name) (pre : state)
          (ops : list op) (os : list obs) (i : nat) : list (nat * nat * nat) :=
   match ops, os with
@@ -293,7 +324,8 @@ Fixpoint spec_violations (i : nat) (cs : list case) : list (nat * nat * nat * na
   | [] => []
   | c :: rest =>
       map (fun '(j, k, cl) => (i, j, k, cl))
-          (monitor (case_env c) false [] [] (init (list_to_map (c_bal0 c))) (c_ops c) (c_obs c) 0) ++
+          (monitor (case_env c) false [] [] (init (list_to_map (c_bal0 c))) (c_ops c) (c_obs c) 0 ++
+           monitor_ext (case_env c) [] [] (init (list_to_map (c_bal0 c))) (c_ops c) (c_obs c) 0) ++
       spec_violations (S i) rest
   end.
 
